@@ -14,6 +14,7 @@ import EaselModel.Msa.LemmasFull
 import EaselModel.Msa.LemmasPairs
 import EaselModel.Msa.LemmasClass
 import EaselModel.Msa.LemmasPk3
+import EaselModel.Msa.LemmasRbbOk
 /-! # C15 — alignment transformations keep the alignment well formed and the residues intact; WUSS round trips
 
 Property theorems only; proofs are glue on the lemmas of `EaselModel/Msa/Lemmas*.lean`.
@@ -69,6 +70,17 @@ theorem columnSubset_nucleic (m : Msa) (mask : List Bool) (a : Abc) (wf : m.WF) 
     exact ⟨by simp [columnSubset, habc, hn, hok, h], colFilter_wf _ mask wf' hm', hform⟩
   · intro hbad
     simp [columnSubset, habc, hn, hbad]
+
+/-- UNCONDITIONAL DNA/RNA `esl_msa_ColumnSubset` for alignments whose SS_cons and per-sequence SS lines are balanced WUSS
+    without pseudoknot letters: the base-pair repair cannot fail, the result is the column filter of the repaired
+    alignment (only SS lines were rewritten), well formed -/
+theorem columnSubset_nucleic_plain (m : Msa) (mask : List Bool) (a : Abc) (wf : m.WF) (habc : m.abc = some a)
+    (hn : a.isNucleic = true) (hm : mask.length = m.alen)
+    (hc : ∀ b, m.ss_cons = some b → PlainSS b) (hs : ∀ s b, s ∈ m.ss → s = some b → PlainSS b) :
+    columnSubset m mask = { msa := (removeBrokenBasepairs m mask).msa.colFilter mask, st := .ok } ∧
+    ((removeBrokenBasepairs m mask).msa.colFilter mask).WF ∧
+    ∃ sc ss', (removeBrokenBasepairs m mask).msa = { m with ss_cons := sc, ss := ss' } :=
+  (columnSubset_nucleic m mask a wf habc hn hm).1 (removeBrokenBasepairs_ok_plain m mask hc hs)
 
 /-- well-formedness (every aligned length = the new `alen`, no embedded terminator, >= 1 sequence, table widths) is
     preserved by the column selection -/
